@@ -130,6 +130,8 @@ class EvalCtx(object):
                 cname = value.get_attr(self, ast_attr.attr)
         elif node_type is ImportedName:
             iname = node  # type: ImportedName # type: ignore[assignment]
+            if any(iname is r for r in result):
+                return result  # modules importing the name from each other
             result.append(iname)
             cname = iname.resolve(self)
         else:
